@@ -9,7 +9,7 @@ FIRST = {
  "C05-r4-2": ([], ["C05", "C04"]), "C06-r4-1": (["C06"], []), "C06-r4-2": (["C06"], []), "C09-r4-2": (["C09"], []),
  "C12-r4-2": ([], ["C12"]), "C13-r4-1": ([], ["C13"]), "C14-r4-1": (["C14"], []), "C15-r4-1": (["C15"], []),
  "C15-r4-2": (["C15"], []), "C16-r4-2": (["C01"], ["C16"]), "C17-r4-2": ([], ["C17"]), "C18-r4-1": ([], ["C18", "C12"]),
- "C18-r4-2": ([], ["C18"]),
+ "C18-r4-2": ([], ["C18"]), "C08-r4-2": ([], ["C08"]),
 }
 NOW = {
  "C01-r4-2": (["C01"], "needed multi-byte text before an emitted loud comment on the same line (character column used as a byte offset): such snippets were added to the token dictionary - which made detection depend on the PRNG seed (caught on seeds 0 and 2, missed on 1) - and then an enumerated class G8 (160 sheets: multi-byte text before loud comments, blocks and error sites, both styles) which reports it on every seed"),
@@ -19,6 +19,7 @@ NOW = {
  "C17-r4-2": (["C17"], "needed three levels with an outer two-query list that shares ONE query text with the levels below and a middle list with an alternative the outer list does not cover: enumeration E6"),
  "C18-r4-1": (["C12"], "needed an `@forward .. as p_*` prefix spelled with an underscore: 35 % of the generated `p-` prefixes (and every name derived from them) are now spelled `p_`"),
  "C18-r4-2": (["C18"], "needed an indented-syntax selector list broken after a comma that is followed by blanks, a tab or a silent comment: twin documents gained rules whose selector list spans several lines (the SCSS twin breaks its lines at the same commas, since a line break after a comma is kept in the output)"),
+ "C08-r4-2": (["C08"], "needed math.min/math.max with at least three arguments in mixed convertible units, ordered so that the running extreme changes unit before a later comparison (a near-duplicate of C08-r2-1, which two-argument calls caught): C08 now enumerates `math.max(a, b, a * 3)` / `math.min(a, b, a / 3)` over all unit pairs"),
  "C16-r4-2": (["C01"], "C16's expression generator builds clamp() with ordered, mutually comparable bounds only; the panic is reported by C01's built-in-call class (clamp with a unitless first argument and two inconvertible units). Not strengthened in C16 for lack of time - recorded as a miss of C16's own check"),
 }
 kept = 0
